@@ -262,7 +262,7 @@ func run(id, tier string) int {
 		} else {
 			repro = 5
 		}
-		if c.Minimise != nil && f.Kind != "crash" && time.Now().Before(classifyDeadline) {
+		if c.Minimise != nil && f.Kind != "crash" && f.Core == "" && time.Now().Before(classifyDeadline) {
 			// Minimise also when the violation is not reproducible every time
 			// (the implementation iterates Go maps): the reproducer then retries.
 			if m := c.Minimise(&f); m != nil {
